@@ -86,7 +86,7 @@ type inst struct {
 
 var shapes = []string{"file", "file", "dir", "dir-nonexec", "dir-extra-before", "dir-extra-after", "dir-nonexec-extra-after", "dir-nonexec-extra-before", "dir-subdir", "dir-subdir-before",
 	"dir-subdir-samename", "dir-symlink-extra", "dir-two", "dir-two-nonexec", "dir-no-candidate", "badmeta", "misnamed", "file-nonexec", "dir-badmeta", "file-via-symlink", "file-via-symlink", "misnamed-case",
-	"dir-samename-subdir", "dir-candidate-symlink", "dir-extra-group-exec", "dir-single-group-exec-only"}
+	"dir-samename-subdir", "dir-samename-subdir-holds-candidate", "dir-candidate-symlink", "dir-extra-group-exec", "dir-single-group-exec-only"}
 
 func main() {
 	r := lib.Start("C20", "exploration")
@@ -266,6 +266,14 @@ func runSequence(ctx context.Context, r *lib.Run, seq int, pending *[]func()) (b
 					os.MkdirAll(nested, 0o755)
 					os.WriteFile(filepath.Join(nested, "LICENSE"), []byte("NESTED licence"), 0o644)
 					os.WriteFile(filepath.Join(nested, "data.bin"), []byte("nested data"), 0o644)
+				case "dir-samename-subdir-holds-candidate":
+					// ... and here that same-named sub-directory holds the ONLY notation-* file: the top level has no candidate,
+					// the source is unusable (sub-directories are ignored)
+					nested := filepath.Join(src, filepath.Base(src))
+					os.MkdirAll(nested, 0o755)
+					os.Rename(exe, filepath.Join(nested, "notation-"+name))
+					addExtra("README", "readme", 0o644)
+					usable = false
 				case "dir-candidate-symlink":
 					// the only notation-* entry of the directory is a symbolic link (to a perfectly good executable): directory
 					// sources take regular files only, so there is no candidate
